@@ -127,6 +127,24 @@ func smallXPoint(r *core.Rand) (x, y *big.Int) {
 	}
 }
 
+// montXPoint finds a curve point whose x has a structured Montgomery form (see
+// montStructured), with either root as y.
+func montXPoint(r *core.Rand) (x, y *big.Int) {
+	for {
+		x = montStructured(r, ref.SM2P)
+		rhs := new(big.Int).Exp(x, big.NewInt(3), ref.SM2P)
+		rhs.Add(rhs, new(big.Int).Mul(ref.SM2A, x))
+		rhs.Add(rhs, ref.SM2B)
+		rhs.Mod(rhs, ref.SM2P)
+		if y, ok := sqrtP(rhs); ok {
+			if r.Chance(1, 2) {
+				y.Sub(ref.SM2P, y)
+			}
+			return x, y
+		}
+	}
+}
+
 // structuredXPoint finds a curve point whose x is 2^(32j)*k - 1 (so that x+p differs
 // from p-1 only in the high halves of some 64-bit words) and small enough for x+p to fit.
 func structuredXPoint(r *core.Rand) (x, y *big.Int) {
@@ -158,6 +176,10 @@ func c12MutateCoord(r *core.Rand, x, y []byte) (nx, ny []byte, kind string) {
 			return ref.Pad32(new(big.Int).Add(sx, ref.SM2P)), ref.Pad32(sy), "wire:+p"
 		}
 		return ref.Pad32(sx), ref.Pad32(sy), "none"
+	}
+	if r.Chance(1, 10) { // a valid point whose x has a structured Montgomery form (carry chains of the field code)
+		mx, my := montXPoint(r)
+		return ref.Pad32(mx), ref.Pad32(my), "none"
 	}
 	if r.Chance(1, 10) { // small y: the alias y+p fits in 32 bytes and must be refused
 		sx, sy := smallYPoint(r)
